@@ -326,11 +326,12 @@ impl Gen<'_> {
         }
         let len = self.live(&b, &k);
         let mut r = self.range_for(len);
-        if k.ends_with('/') {
-            r = "-".to_owned();
-        }
         if self.f_huge && self.rng.chance(1, 10) {
             r = "s18446744073709551615".to_owned();
+        }
+        // a path that may be a directory is only read without a range (what the OS does then is not modelled)
+        if k.ends_with('/') || k == "t" {
+            r = "-".to_owned();
         }
         if self.clean {
             if let Some(n) = r.strip_prefix('s') {
@@ -423,7 +424,7 @@ impl Gen<'_> {
             if !(self.sim.metafile.contains(&src) || !self.sim.metafile.contains(&dst)) {
                 return None;
             }
-            if self.sim.cksfile.contains(&dst) {
+            if self.sim.cksfile.contains(&dst) || self.sim.cksfile.contains(&src) {
                 return None;
             }
         } else if self_copy && !self.rng.chance(1, 4) {
@@ -470,7 +471,7 @@ impl Gen<'_> {
         } else if self.clean || self.rng.chance(1, 2) {
             Some(1000)
         } else {
-            Some(self.rng.below(count as u64 + 2) as i32)
+            Some(self.rng.range(1, count as u64 + 1) as i32)
         };
         Some(format!(
             "{}:{w}:{}:{}:{}:{}:{}",
@@ -595,7 +596,7 @@ impl Gen<'_> {
         let (i, u) = self.upload()?;
         let (w, b, k) = self.upload_ctx(i);
         let (sb, sk) = self.object(90);
-        if sk.ends_with('/') || (self.clean && !self.sim.buckets.contains_key(&sb)) {
+        if sk.ends_with('/') || sk == "t" || (self.clean && !self.sim.buckets.contains_key(&sb)) {
             return None;
         }
         let n: i32 = self.rng.range(1, 4) as i32;
@@ -614,7 +615,7 @@ impl Gen<'_> {
             let a = self.rng.below(l);
             let z = a + self.rng.below(l - a);
             plen = Some((z - a + 1) as usize);
-            if self.rng.chance(1, 6) {
+            if !self.clean && self.rng.chance(1, 6) {
                 plen = Some((l - a) as usize);
                 Some(format!("bytes={a}-"))
             } else {
@@ -643,6 +644,10 @@ impl Gen<'_> {
     fn op_mpl(&mut self) -> Option<String> {
         let (i, u) = self.upload()?;
         let (w, b, k) = self.upload_ctx(i);
+        // the backend lists parts in directory order: a clean history only lists uploads with at most one part
+        if self.clean && i.is_some_and(|i| self.sim.ups[i].parts.len() > 1) {
+            return None;
+        }
         Some(format!("mpl:{w}:{}:{}:{u}", hs(&b), hs(&k)))
     }
 
@@ -771,7 +776,9 @@ impl Gen<'_> {
             let c = self.new_content(*len);
             self.ops.push(format!("mpu:{w}:{}:{}:{u}:{}:{c}", hs(&b), hs(&k), j + 1));
         }
-        self.ops.push(format!("mpl:{w}:{}:{}:{u}", hs(&b), hs(&k)));
+        if !self.clean {
+            self.ops.push(format!("mpl:{w}:{}:{}:{u}", hs(&b), hs(&k)));
+        }
         self.ops.push(format!("mpx:{w}:{}:{}:{u}:+1,2,3", hs(&b), hs(&k)));
         let total: usize = lens.iter().sum();
         self.sim.ups.last_mut().unwrap().alive = false;
@@ -839,7 +846,7 @@ fn gen_history(rng: &mut Rng, clean: bool, big: bool, maxops: u64) -> Vec<String
 }
 
 fn generate(rng: &mut Rng, n: u64, tier: &str, emit: &mut dyn FnMut(Vec<String>)) {
-    let (maxops, nbig) = if tier == "thorough" { (90, 12) } else { (40, 3) };
+    let (maxops, nbig) = if tier == "thorough" { (90, 6) } else { (40, 2) };
     for i in 0..n {
         let clean = i % 5 < 2;
         let big = i < nbig;
@@ -1030,6 +1037,7 @@ async fn run_op(fs: &FileSystem, ups: &mut Uploads, op: &str) -> String {
             b.set_bucket(un_hs(a[2]));
             b.set_key(un_hs(a[3]));
             b.set_range(parse_range(a[4]));
+            b.set_checksum_mode(Some(ChecksumMode::from_static(ChecksumMode::ENABLED)));
             match fs.get_object(req(b.build().unwrap(), w)).await {
                 Ok(r) => {
                     let o = r.output;
